@@ -50,14 +50,14 @@ ASSUMPTIONS = ["__del__-time closing is outside the model: the harness keeps ref
 EXPLANATION = "life kind enumerates all op histories up to the tier's length for all 8 adapter variants"
 
 ADAPTERS = {
-    "stream": ("stream://{d}/out.records", "stream"),
-    "streamgz": ("stream://{d}/out.records.gz", "stream"),
-    "jsonfile": ("jsonfile://{d}/out.json", "jsonfile"),
-    "avro": ("avro://{d}/out.avro", "avro"),
-    "sqlite": ("sqlite://{d}/out.db", "sqlite"),
-    "csvfile": ("csvfile://{d}/out.csv", "csvfile"),
-    "line": ("line://{d}/out.txt", "line"),
-    "text": ("text://{d}/out.txt", "text"),
+    "stream": ("stream://{d}/out%41.records", "stream"),
+    "streamgz": ("stream://{d}/out%41.records.gz", "stream"),
+    "jsonfile": ("jsonfile://{d}/out%2e.json", "jsonfile"),
+    "avro": ("avro://{d}/o%75t.avro", "avro"),
+    "sqlite": ("sqlite://{d}/out%41.db", "sqlite"),
+    "csvfile": ("csvfile://{d}/out%41.csv", "csvfile"),
+    "line": ("line://{d}/out%41.txt", "line"),
+    "text": ("text://{d}/out%24.txt", "text"),
 }
 EMPTY_VALID = ("stream", "streamgz", "jsonfile", "avro", "sqlite")
 HEADER = b"\x00\x00\x00\x0f\xc4\x0dRECORDSTREAM\n"
@@ -67,6 +67,7 @@ SPLIT_TARGETS = [
     ("out", "stream", ""), ("dots.in.name.rec", "stream", ""), ("out.json", "jsonfile", ""),
     ("out.jsonl", "jsonfile", ""), ("out.avro", "avro", ""), ("out.csv", "csvfile", ""),
     ("data.txt", "jsonfile", "jsonfile"), ("data.bin", "avro", "avro"), ("x.db", "sqlite", "sqlite"),
+    ("p%41.records", "stream", ""), ("q%2e.bin", "avro", "avro"),
 ]
 
 
@@ -93,6 +94,9 @@ def gen_cases(rng, tier):
             for h in itertools.product("wfX", repeat=n):
                 if "X" in h:
                     cases.append({"kind": "life", "adapter": adapter, "hist": "".join(h)})
+    # SQLite: record types whose name starts like SQLite's own tables
+    for h in ("wc", "wwx", "wfwc", "wX", "w"):
+        cases.append({"kind": "life", "adapter": "sqlite", "hist": h, "tname": 3})
     # histories with a REFUSED write ('e': a record the adapter cannot store - an integer beyond 64 bits for SQLite, text
     # with a lone surrogate for the binary stream) after which the caller carries on: nothing else may be lost
     for adapter in ("sqlite", "stream"):
@@ -131,7 +135,7 @@ def gen_cases(rng, tier):
     exts = [".records.gz", ".records.gz", ".records", "", ".json", ".v1.records"]
     for _ in range(nt):
         ext = r.choice(exts)
-        keys = r.sample(["A", "B", "C", "a.b", "k-1"], r.randint(1, 3))
+        keys = r.sample(["A", "B", "C", "a.b", "k-1", "C%24", "x%41"], r.randint(1, 3))
         t = 1704067200 + r.randint(0, 5)
         writes = []
         for _ in range(r.choice([1, 2, 3, 4, 6, 9])):
@@ -181,7 +185,8 @@ def _rot_name(name, stamp, seq):
 
 def _desc(i=0):
     from flow.record import RecordDescriptor
-    return RecordDescriptor(["test/c17", "test/c17b", "other/c"][i], [("string", "s"), ("varint", "n")] +
+    # index 3: a type name that begins like SQLite's internal tables (`sqlite_master`, ...): an ordinary record type
+    return RecordDescriptor(["test/c17", "test/c17b", "other/c", "sqlite/history"][i], [("string", "s"), ("varint", "n")] +
                             ([("string", "extra")] if i == 2 else []))
 
 
@@ -339,7 +344,7 @@ def _run_life(case):
         url = ADAPTERS[case["adapter"]][0].format(d=d)
         path = url.split("://", 1)[1]
         w = RecordWriter(url)
-        outcomes = _apply_ops(w, case["hist"], _rec)
+        outcomes = _apply_ops(w, case["hist"], (lambda i: _rec(i, case["tname"])) if case.get("tname") else _rec)
         cleanup = False
         if _is_open(w):
             cleanup = True
@@ -347,7 +352,11 @@ def _run_life(case):
                 w.close()
             except Exception as e:
                 outcomes.append("cleanup-raised:" + type(e).__name__)
-        obs = {"outcomes": outcomes, "cleanup_close": cleanup, "size": os.path.getsize(path)}
+        # the path of the URL is a file name, taken literally (a "%41" in it is three characters, not "A")
+        obs = {"outcomes": outcomes, "cleanup_close": cleanup, "listing": sorted(os.listdir(d)),
+               "want_name": os.path.basename(path), "size": os.path.getsize(path) if os.path.exists(path) else None}
+        if obs["size"] is None:
+            return obs
         if ADAPTERS[case["adapter"]][1] not in ("line", "text"):
             obs["matching"] = _read_matching(url)
         obs["independent"] = _read_independent(case["adapter"], path)
@@ -516,6 +525,9 @@ def _first_closing(hist):
 
 def _oracle_life(case, obs):
     hist = case["hist"]
+    if obs.get("size") is None:
+        return (f"{case['adapter']} writer: the file the URL names ({obs.get('want_name')}) does not exist after the "
+                f"history; the directory holds {obs.get('listing')}")
     accepted, i, opened = [], 0, True
     for op, out in zip(hist, obs["outcomes"]):
         if op == "w":
